@@ -45,6 +45,38 @@ template <> struct Reflect<formtypes::Tab> {
 };
 }  // namespace vf
 
+
+// ---- legal shapes of the Writer/Reader concept: the documented interface is "writer->Prepare(size)" / "reader->Ensure(size)" as expressions, so a
+// class may declare those members overloaded, as templates, with defaulted extra parameters, static, or inherit them. Everything is forwarded to a
+// LogWriter/LogReader, which records the calls; the library must treat all shapes alike (Prepare first, with the encoded size; errors verbatim).
+namespace shapes {
+struct WBase {
+  vf::LogWriter log;
+  nop::Status<void> Write(std::uint8_t b) { return log.Write(b); }
+  template <typename T, typename Enable = nop::EnableIfArithmetic<T>> nop::Status<void> Write(const T* b, const T* e) { return log.Write(b, e); }
+  nop::Status<void> Skip(std::size_t n, std::uint8_t v = 0x00) { return log.Skip(n, v); }
+  template <typename H> nop::Status<nop::HandleReference> PushHandle(const H& h) { return log.PushHandle(h); }
+};
+struct WOverloaded : WBase { nop::Status<void> Prepare(std::size_t n) { return Prepare(n, 1); } nop::Status<void> Prepare(std::size_t n, std::size_t /*alignment*/) { return log.Prepare(n); } static const char* name() { return "writer with overloaded Prepare(size)/Prepare(size, alignment)"; } };
+struct WTemplate : WBase { template <typename S> nop::Status<void> Prepare(S n) { return log.Prepare((std::size_t)n); } static const char* name() { return "writer with a template Prepare"; } };
+struct WDefaulted : WBase { nop::Status<void> Prepare(std::size_t n, int /*hint*/ = 0) { return log.Prepare(n); } static const char* name() { return "writer whose Prepare has a defaulted second parameter"; } };
+struct WPrepBase : WBase { nop::Status<void> Prepare(std::size_t n) { return log.Prepare(n); } };
+struct WInherited : WPrepBase { static const char* name() { return "writer inheriting Prepare from a base class"; } };
+struct WConstRef : WBase { nop::Status<void> Prepare(const std::size_t& n) const { return const_cast<vf::LogWriter&>(log).Prepare(n); } static const char* name() { return "writer with Prepare(const size_t&) const"; } };
+struct WPrivateBase : private WPrepBase { using WPrepBase::Prepare; using WBase::Write; using WBase::Skip; using WBase::PushHandle; using WBase::log; static const char* name() { return "writer exposing Prepare through a using-declaration"; } };
+struct RBase {
+  vf::LogReader log;
+  nop::Status<void> Read(std::uint8_t* b) { return log.Read(b); }
+  template <typename T, typename Enable = nop::EnableIfArithmetic<T>> nop::Status<void> Read(T* b, T* e) { return log.Read(b, e); }
+  nop::Status<void> Skip(std::size_t n) { return log.Skip(n); }
+  template <typename H> nop::Status<H> GetHandle(nop::HandleReference r) { return log.template GetHandle<H>(r); }
+};
+struct ROverloaded : RBase { nop::Status<void> Ensure(std::size_t n) { return Ensure(n, 1); } nop::Status<void> Ensure(std::size_t n, std::size_t) { return log.Ensure(n); } static const char* name() { return "reader with overloaded Ensure"; } };
+struct RTemplate : RBase { template <typename S> nop::Status<void> Ensure(S n) { return log.Ensure((std::size_t)n); } static const char* name() { return "reader with a template Ensure"; } };
+struct RDefaulted : RBase { nop::Status<void> Ensure(std::size_t n, int = 0) { return log.Ensure(n); } static const char* name() { return "reader whose Ensure has a defaulted second parameter"; } };
+struct REnsBase : RBase { nop::Status<void> Ensure(std::size_t n) { return log.Ensure(n); } };
+struct RInherited : REnsBase { static const char* name() { return "reader inheriting Ensure from a base class"; } };
+}  // namespace shapes
 namespace {
 using SW = nop::StreamWriter<std::stringstream>;
 using SR = nop::StreamReader<std::stringstream>;
@@ -95,6 +127,47 @@ template <typename T, typename De> void read_all(De& d, const Vals<T>& vs, const
 }
 
 // Fd readers/writers have no Skip: tables are not instantiated on them (as C01 states: "that offers the operations the type needs")
+template <typename T, typename W> void writer_shape_case(const T& v, const Bytes& expect, uint64_t ncalls_ref, const FormCtx& c) {
+  static const nop::ErrorStatus errs[] = {nop::ErrorStatus::WriteLimitReached, nop::ErrorStatus::StreamError, nop::ErrorStatus::IOError, nop::ErrorStatus::ProtocolError, nop::ErrorStatus::DebugError};
+  const char* fn = W::name();
+  { W w; nop::Serializer<W*> s{&w}; const size_t gs = s.GetSize(v); auto st = s.Write(v); rep().count("forms_writer_shapes_written"); rep().note_enumerated(true);
+    if (!st) viol(c, fmt("C10:forms:shape:write-failed:%s", fn), fmt("%s: Write failed with '%s' without any injected fault", fn, errname(st.error())));
+    else {
+      if (w.log.data != expect) viol(c, fmt("C10:forms:shape:bytes:%s", fn), fmt("%s: bytes differ from the reference encoding", fn));
+      if (w.log.calls.empty() || w.log.calls[0].op != Op::Prepare) viol(c, fmt("C10:forms:shape:prepare-not-first:%s", fn), fmt("%s: the first writer call of Serializer::Write is %s, not Prepare", fn, w.log.calls.empty() ? "(none)" : opname(w.log.calls[0].op)));
+      else if (w.log.calls[0].size != gs) viol(c, fmt("C10:forms:shape:prepare-size:%s", fn), fmt("%s: Prepare(%" PRIu64 ") but GetSize is %zu", fn, w.log.calls[0].size, gs));
+      if (w.log.ncalls != ncalls_ref) viol(c, fmt("C10:forms:shape:call-count:%s", fn), fmt("%s: %" PRIu64 " writer calls, a plain LogWriter sees %" PRIu64, fn, w.log.ncalls, ncalls_ref));
+    } }
+  for (uint64_t k = 0; k < ncalls_ref && k < 60; k++) { const int ei = (int)((k + c.ci) % 5);
+    W w; w.log.fault.fail_at = (int64_t)k; w.log.fault.error = errs[ei]; nop::Serializer<W*> s{&w}; auto st = s.Write(v); rep().count("forms_writer_shape_faults"); rep().note_enumerated(true);
+    if (st) viol(c, fmt("C10:forms:shape:success-after-fault:%s", fn), fmt("%s: fault at writer call %" PRIu64 " but Write reported success", fn, k));
+    else if (st.error() != errs[ei]) viol(c, fmt("C10:forms:shape:error-changed:%s", fn), fmt("%s: injected '%s', returned '%s'", fn, errname(errs[ei]), errname(st.error())));
+    if (w.log.calls_after_failure) viol(c, fmt("C10:forms:shape:calls-after-fault:%s", fn), fmt("%s: %" PRIu64 " further writer calls after the failed call %" PRIu64, fn, w.log.calls_after_failure, k));
+    if (k == 0 && !w.log.data.empty()) viol(c, fmt("C10:forms:shape:written-after-failed-prepare:%s", fn), fmt("%s: %zu bytes were written although Prepare failed", fn, w.log.data.size()));
+  }
+  // a writer with room for everything but the last byte: Prepare refuses, nothing may be written, WriteLimitReached comes back verbatim
+  if (!expect.empty()) { W w; w.log.capacity = expect.size() - 1; nop::Serializer<W*> s{&w}; auto st = s.Write(v); rep().count("forms_writer_shape_refusals");
+    if (st) viol(c, fmt("C10:forms:shape:success-after-refusal:%s", fn), fmt("%s: capacity one byte short but Write reported success", fn));
+    else if (st.error() != nop::ErrorStatus::WriteLimitReached) viol(c, fmt("C10:forms:shape:error-changed:%s", fn), fmt("%s: writer refused with 'Write Limit Reached', returned '%s'", fn, errname(st.error())));
+    if (!w.log.data.empty()) viol(c, fmt("C10:forms:shape:written-after-failed-prepare:%s", fn), fmt("%s: %zu bytes were written although Prepare refused", fn, w.log.data.size())); }
+}
+template <typename T, typename R> void reader_shape_case(const Bytes& enc, const Val& v0, const Sch& sch, uint64_t rcalls_ref, const std::vector<Call>& ref_calls, const FormCtx& c) {
+  static const nop::ErrorStatus rerrs[] = {nop::ErrorStatus::ReadLimitReached, nop::ErrorStatus::StreamError, nop::ErrorStatus::IOError, nop::ErrorStatus::ProtocolError, nop::ErrorStatus::DebugError};
+  const char* fn = R::name(); ExactBuf b(enc.data(), enc.size());
+  { R r; r.log = LogReader(b.p, enc.size()); nop::Deserializer<R*> d{&r}; Holder<T> h; auto st = d.Read(&h.get()); rep().count("forms_reader_shapes_read"); rep().note_enumerated(true);
+    if (!st) viol(c, fmt("C10:forms:shape:read-failed:%s", fn), fmt("%s: Read failed with '%s' without any injected fault", fn, errname(st.error())));
+    else {
+      if (!(canoned(sch, ToVal<T>(h.get())) == v0)) viol(c, fmt("C10:forms:shape:value:%s", fn), fmt("%s: value read differs from the value written", fn));
+      if (r.log.ncalls != rcalls_ref) viol(c, fmt("C10:forms:shape:call-count:%s", fn), fmt("%s: %" PRIu64 " reader calls, a plain LogReader sees %" PRIu64, fn, r.log.ncalls, rcalls_ref));
+      else for (size_t i = 0; i < ref_calls.size(); i++) if (r.log.calls[i].op != ref_calls[i].op || r.log.calls[i].size != ref_calls[i].size) { viol(c, fmt("C10:forms:shape:call-sequence:%s", fn), fmt("%s: reader call %zu is %s(%" PRIu64 "), a plain LogReader sees %s(%" PRIu64 ")", fn, i, opname(r.log.calls[i].op), r.log.calls[i].size, opname(ref_calls[i].op), ref_calls[i].size)); break; }
+    } }
+  for (uint64_t k = 0; k < rcalls_ref && k < 60; k++) { const int ei = (int)((k + c.ci) % 5);
+    R r; r.log = LogReader(b.p, enc.size()); r.log.fault.fail_at = (int64_t)k; r.log.fault.error = rerrs[ei]; nop::Deserializer<R*> d{&r}; Holder<T> h; auto st = d.Read(&h.get()); rep().count("forms_reader_shape_faults"); rep().note_enumerated(true);
+    if (st) viol(c, fmt("C10:forms:shape:success-after-fault:%s", fn), fmt("%s: fault at reader call %" PRIu64 " but Read reported success", fn, k));
+    else if (st.error() != rerrs[ei]) viol(c, fmt("C10:forms:shape:error-changed:%s", fn), fmt("%s: injected '%s', returned '%s'", fn, errname(rerrs[ei]), errname(st.error())));
+    if (r.log.calls_after_failure) viol(c, fmt("C10:forms:shape:calls-after-fault:%s", fn), fmt("%s: %" PRIu64 " further reader calls after the failed call %" PRIu64, fn, r.log.calls_after_failure, k));
+  }
+}
 template <typename T> struct HasFd : std::integral_constant<bool, !std::is_same<T, formtypes::Tab>::value> {};
 template <typename T> void fd_write_form(const Vals<T>&, const FormCtx&, bool, std::false_type) {}
 template <typename T> void fd_write_form(const Vals<T>& vs, const FormCtx& c, bool protocol, std::true_type) {
@@ -217,7 +290,13 @@ template <typename T> void one_case(const char* tname, uint64_t ci, const std::s
       if (w.calls_after_failure) viol(c, fmt("C10:forms:calls-after-fault:write:%s", fn), fmt("%s: %" PRIu64 " further writer calls after the failed call %" PRIu64, fn, w.calls_after_failure, k));
       if (k == 0 && !w.data.empty()) viol(c, fmt("C10:forms:written-after-failed-prepare:%s", fn), "bytes were written although Prepare failed");
     }
-    uint64_t rcalls; { ExactBuf b(vs.ref.data(), vs.ends[0]); nop::Deserializer<LogReader> d{b.p, vs.ends[0]}; Holder<T> h; (void)d.Read(&h.get()); rcalls = d.reader().ncalls; }
+    { const Bytes first(vs.ref.begin(), vs.ref.begin() + vs.ends[0]);
+      writer_shape_case<T, shapes::WOverloaded>(v, first, ncalls, c); writer_shape_case<T, shapes::WTemplate>(v, first, ncalls, c); writer_shape_case<T, shapes::WDefaulted>(v, first, ncalls, c);
+      writer_shape_case<T, shapes::WInherited>(v, first, ncalls, c); writer_shape_case<T, shapes::WConstRef>(v, first, ncalls, c); writer_shape_case<T, shapes::WPrivateBase>(v, first, ncalls, c); }
+    uint64_t rcalls; std::vector<Call> rref; { ExactBuf b(vs.ref.data(), vs.ends[0]); nop::Deserializer<LogReader> d{b.p, vs.ends[0]}; Holder<T> h; (void)d.Read(&h.get()); rcalls = d.reader().ncalls; rref = d.reader().calls; }
+    { const Bytes first(vs.ref.begin(), vs.ref.begin() + vs.ends[0]);
+      reader_shape_case<T, shapes::ROverloaded>(first, vs.v0[0], sch, rcalls, rref, c); reader_shape_case<T, shapes::RTemplate>(first, vs.v0[0], sch, rcalls, rref, c);
+      reader_shape_case<T, shapes::RDefaulted>(first, vs.v0[0], sch, rcalls, rref, c); reader_shape_case<T, shapes::RInherited>(first, vs.v0[0], sch, rcalls, rref, c); }
     for (uint64_t k = 0; k < rcalls && k < 200; k++) for (int ei = 0; ei < 5; ei++) for (int form = 0; form < 3; form++) {
       ExactBuf b(vs.ref.data(), vs.ends[0]); LogReader ext{b.p, vs.ends[0]}; std::unique_ptr<LogReader> up(new LogReader(b.p, vs.ends[0])); LogReader* upraw = up.get();
       nop::Deserializer<LogReader> d0{b.p, vs.ends[0]}; nop::Deserializer<LogReader*> d1{&ext}; nop::Deserializer<std::unique_ptr<LogReader>> d2{std::move(up)};
